@@ -903,7 +903,8 @@ Section Link.
   Qed.
   Lemma NodeOK_rm nc vm vm' xs n n' f g i :
     v_srv n' = v_srv n -> v_inf n' = v_inf n -> v_hi n' = v_hi n -> v_int n' = v_int n ->
-    (forall i', In i' (memv vm n) <-> i' = i \/ In i' (memv vm' n')) -> f i = None -> ~ In i (v_int n) -> NodeOK nc vm xs n f g -> NodeOK nc vm' xs n' f g.
+    (forall i', In i' (memv vm n) <-> i' = i \/ In i' (memv vm' n')) -> f i = None -> (v_inf n = false -> ~ In i (v_int n)) ->
+    NodeOK nc vm xs n f g -> NodeOK nc vm' xs n' f g.
   Proof.
     intros E1 E2 E3 E4 Hm Hf Hni. unfold NodeOK. rewrite E1, E2, E3, E4. destruct (nc_srv nc); [|intros [H1 H2]; split; [exact H1|eapply FinOK_rm; eauto]|auto].
     destruct (v_inf n); [intros H i' Hi; apply H, Hm; auto|intros H; eapply FinOK_rm; eauto].
@@ -947,7 +948,7 @@ Section Link.
   Qed.
   (* the virtual customer has given up its server: it is in flight *)
   Lemma LV_vm_fl fl xs w j i :
-    LV fl (Some (j, i)) xs w -> isvv w i = None -> (forall k n, nth_error (w_ns w) k = Some n -> v_id n = j -> ~ In i (v_int n)) ->
+    LV fl (Some (j, i)) xs w -> isvv w i = None -> (forall k n, nth_error (w_ns w) k = Some n -> v_id n = j -> v_inf n = false -> ~ In i (v_int n)) ->
     LV (i :: fl) None xs w.
   Proof.
     intros (HW & HN & HF & HLen) Hi Hint. split; [exact HW|]. split; [|split; [|exact HLen]].
@@ -1072,6 +1073,8 @@ Section Link.
   Proof. intros s b s' _ _ E. discriminate. Qed.
   Lemma ht_lift {X} P e (o : option X) : ht P (lift e o) (fun a w => P w /\ o = Some a).
   Proof. destruct o as [x|]; intros s b s' HI HP E; inversion E. subst. auto. Qed.
+  Lemma ht_lift_bind {X Y} P e (o : option X) (f : X -> M Y) R : (forall a, o = Some a -> ht P (f a) R) -> ht P (bind (lift e o) f) R.
+  Proof. intros Hf s b s' HI HP E. unfold bind in E. destruct o as [x|]; cbn in E; [|discriminate]. eapply Hf; eauto. Qed.
   Lemma ht_get_node P j : ht P (get_node j) (fun nd w => P w /\ cur j nd w).
   Proof.
     intros s nd s' HI HP E. apply get_node_spec in E as (-> & Hj & Hn). split; [exact HI|]. split; [exact HP|].
@@ -1677,6 +1680,7 @@ Section Link.
   Tactic Notation "hind" ident(x) := eapply ht_bind; [apply ht_get_ind|intros x].
   Tactic Notation "hlift" ident(a) := eapply ht_bind; [apply ht_lift|intros a].
   Tactic Notation "hK" := eapply ht_bind; [hk|intros ?].
+  Tactic Notation "hliftc" ident(a) ident(H) := apply ht_lift_bind; intros a H.
 
   Lemma hd_error_In {A} (l : list A) a : hd_error l = Some a -> In a l.
   Proof. destruct l; cbn; [discriminate|]. intros H. injection H as ->. left. reflexivity. Qed.
@@ -1739,4 +1743,780 @@ Section Link.
       + intros i' [<-|[]]. left. reflexivity.
     - exists (with_int (nv nd2) l'). split; [exact Hn1|]. split; [exact Hinf|]. exact HSv.
   Qed.
+
+
+  Lemma PF_weak j S S' w : (forall s, In s S' -> In s S) -> PF j S w -> PF j S' w.
+  Proof. intros H (n & Hn & Hi & Hs). exists n. split; [exact Hn|]. split; [exact Hi|]. intros s Hs'. apply Hs, H, Hs'. Qed.
+
+  (* a customer that waits (records no server) at a node where server sid is present can be given a server *)
+  Lemma Cn_Wt fl vm w j sid c : LV fl vm [] w -> PF j [sid] w -> Cn j (Some c) w -> Wt vm [] j c w.
+  Proof.
+    intros HL (n & Hn & Hinf & HSv) (n' & Hn' & Hc & Hf). rewrite Hn in Hn'. injection Hn' as <-.
+    destruct (LV_node _ _ _ _ _ _ HL Hn) as (k & nc & Hjk & Hk & Hcf & Hcz & HN).
+    destruct (HSv sid (or_introl eq_refl)) as (t0 & Hfs & _).
+    assert (Hns : nc_slotted nc = false) by (eapply PF_slot; eauto; eapply fsv_sids; eauto).
+    pose proof (NodeOK_fin _ _ _ _ _ _ Hns Hinf HN) as HF.
+    exists n. split; [exact Hn|]. split; [unfold memv; apply in_or_app; left; exact Hc|]. split; [left; exact Hf|].
+    intros Hin. destruct (fo_int _ _ _ _ _ _ _ _ HF c Hin) as [_ Hst]. destruct (Hst (fun F => F)) as (_ & k' & Hk' & _). congruence.
+  Qed.
+
+  Lemma ht_serve_with fl vm j sid S : ~ In sid S ->
+    ht (fun w => LV fl vm [] w /\ PF j (sid :: S) w) (serve_with cf j sid) (fun _ w => LV fl vm [] w /\ PF j S w).
+  Proof.
+    intros HnS. unfold serve_with. hnode nd.
+    destruct (0 <? n_nint nd).
+    - eapply ht_pre; [|apply ht_biis; exact HnS]. intros w _ [H _]. exact H.
+    - eapply ht_bind; [apply ht_choose|intros cand]. destruct cand as [c|].
+      + eapply ht_post; [eapply ht_pre; [|apply (ht_start_give fl vm [] j sid S c HnS)]|].
+        * intros w _ (((HL & HP) & _) & HC). split; [exact HL|]. split; [exact HP|].
+          eapply Cn_Wt; [exact HL| |exact HC]. eapply PF_weak; [|exact HP]. intros s [<-|[]]. left. reflexivity.
+        * intros _ w _ (HL & HP & _). auto.
+      + eapply ht_post; [apply ht_ret|]. intros _ w _ ((((HL & HP) & _) & _) & _). split; [exact HL|].
+        eapply PF_weak; [|exact HP]. intros s Hs. right. exact Hs.
+  Qed.
+
+  (* server sid, if it is (still) at node j, is idle *)
+  Definition FA (j sid : Z) (w : view) : Prop :=
+    exists n, wnode w j = Some n /\ v_inf n = false /\ forall t, fsv sid (v_srv n) = Some t -> s_cust t = None.
+
+  Lemma ht_bsip_release fl vm j freed :
+    ht (fun w => LV fl vm [] w /\ forall sid, freed = Some sid -> FA j sid w) (begin_service_if_possible_release cf j freed)
+       (fun _ w => LV fl vm [] w).
+  Proof.
+    unfold begin_service_if_possible_release. destruct freed as [sid|].
+    - hnode nd. destruct (find_server sid (n_servers nd)) as [sv|] eqn:Ef.
+      + eapply ht_post; [eapply ht_pre; [|apply (ht_serve_with fl vm j sid [])]|]; [|intros []|intros _ w _ [H _]; exact H].
+        intros w _ ((HL & HF) & [Hid Hn]). split; [exact HL|]. destruct (HF sid eq_refl) as (n & Hn' & Hinf & Hfa).
+        rewrite Hn in Hn'. injection Hn' as <-. exists (nv nd). split; [exact Hn|]. split; [exact Hinf|].
+        intros s [<-|[]]. exists (sc sv). assert (Hfs : fsv sid (v_srv (nv nd)) = Some (sc sv)) by (cbn; rewrite fsv_find, Ef; reflexivity).
+        split; [exact Hfs|apply Hfa; exact Hfs].
+      + eapply ht_post; [apply ht_ret|]. intros _ w _ (((HL & _) & _) & _). exact HL.
+    - eapply ht_post; [apply ht_ret|]. intros _ w _ ((HL & _) & _). exact HL.
+  Qed.
+
+
+  (* ---------- detatch_server in detail ---------- *)
+  Definition detn (sid : Z) (n : nview) : nview :=
+    match fsv sid (v_srv n) with
+    | None => n
+    | Some t => let n1 := with_srv n (putsv (mkSv (s_id t) None false (s_off t)) (v_srv n)) in if s_off t then killn sid n1 else n1
+    end.
+  Lemma detv_eq w j n sid i ob : idxv w -> wnode w j = Some n -> fiv i (w_is w) = Some ob ->
+    detv j sid i w = wputi (i, (None, snd ob)) (wputn (detn sid n) w).
+  Proof.
+    intros HI Hn Hob. unfold detv, detn. rewrite Hn, Hob. cbv zeta. destruct (fsv sid (v_srv n)) as [t|]; [destruct (s_off t); reflexivity|].
+    f_equal. symmetry. apply wputn_same. rewrite (wnode_id _ _ _ HI Hn). unfold wnode in Hn. destruct (j <? 1); [discriminate|exact Hn].
+  Qed.
+  Lemma detn_same sid n : v_id (detn sid n) = v_id n /\ v_pop (detn sid n) = v_pop n /\ v_qs (detn sid n) = v_qs n /\
+    v_inf (detn sid n) = v_inf n /\ v_hi (detn sid n) = v_hi n /\ v_int (detn sid n) = v_int n.
+  Proof. unfold detn. destruct (fsv sid (v_srv n)) as [t|]; [destruct (s_off t)|]; cbn; repeat split. Qed.
+  Lemma detn_free sid n t' : NoDup (sids (v_srv n)) -> fsv sid (v_srv (detn sid n)) = Some t' -> s_cust t' = None.
+  Proof.
+    intros HN. unfold detn. destruct (fsv sid (v_srv n)) as [t|] eqn:E; [|congruence]. destruct (fsv_id _ _ _ E) as [Hid _]. cbv zeta. destruct (s_off t).
+    - cbn. rewrite fsv_delsv_eq; [discriminate|]. rewrite sids_putsv. exact HN.
+    - cbn. rewrite fsv_putsv. cbn. rewrite Hid, Z.eqb_refl, E. intros H. injection H as <-. reflexivity.
+  Qed.
+  Lemma detn_present sid n t : fsv sid (v_srv n) = Some t -> s_off t = false ->
+    fsv sid (v_srv (detn sid n)) = Some (mkSv (s_id t) None false false) /\ sids (v_srv (detn sid n)) = sids (v_srv n).
+  Proof.
+    intros E Ho. unfold detn. rewrite E. cbv zeta. rewrite Ho. cbn. destruct (fsv_id _ _ _ E) as [Hid _]. rewrite fsv_putsv. cbn.
+    rewrite Hid, Z.eqb_refl, E, sids_putsv. auto.
+  Qed.
+  Lemma detn_other sid n sid' : sid' <> sid -> fsv sid' (v_srv (detn sid n)) = fsv sid' (v_srv n).
+  Proof.
+    intros Hne. unfold detn. destruct (fsv sid (v_srv n)) as [t|] eqn:E; [|reflexivity]. destruct (fsv_id _ _ _ E) as [Hid _]. cbv zeta.
+    assert (E1 : fsv sid' (putsv (mkSv (s_id t) None false (s_off t)) (v_srv n)) = fsv sid' (v_srv n)).
+    { rewrite fsv_putsv. cbn. rewrite Hid. destruct (sid =? sid') eqn:E2; [apply Z.eqb_eq in E2; congruence|reflexivity]. }
+    destruct (s_off t); cbn; [rewrite fsv_delsv_neq by exact Hne|]; exact E1.
+  Qed.
+  Lemma detn_sids sid n k : NoDup (sids (v_srv n)) -> In k (sids (v_srv (detn sid n))) -> In k (sids (v_srv n)).
+  Proof.
+    intros HN. unfold detn. destruct (fsv sid (v_srv n)) as [t|] eqn:E; [|auto]. cbv zeta. destruct (s_off t); cbn.
+    - rewrite in_sids_delsv by (rewrite sids_putsv; exact HN). rewrite sids_putsv. tauto.
+    - rewrite sids_putsv. auto.
+  Qed.
+
+  Lemma ht_detach_sp (P : view -> Prop) j sid i :
+    ht P (detatch_server j sid i)
+       (fun _ w => exists w0 n ob, idxv w0 /\ P w0 /\ wnode w0 j = Some n /\ fiv i (w_is w0) = Some ob /\
+                                   w = wputi (i, (None, snd ob)) (wputn (detn sid n) w0)).
+  Proof.
+    intros s u s' HI HP E. destruct (detatch_server_vw _ _ _ _ _ _ E HI) as (V & n & ob & Hn & Hob).
+    rewrite V, (detv_eq _ _ _ _ _ _ HI Hn Hob). split; [apply idxv_wputn; exact HI|]. exists (VW s), n, ob. auto.
+  Qed.
+
+  (* ---------- the scope ---------- *)
+  Definition scope_nc (nc : ncfg) : bool :=
+    negb (nc_preempt nc =? 4) && (negb (cf_dyn cf) || (nc_preempt nc =? 0)) &&
+    match nc_srv nc with
+    | SSched sc => negb (sc_pre sc =? 4) && ((nc_preempt nc =? 0) || negb (sc_pre sc =? 0))
+    | SSlot sl => negb (sl_cap sl) || (sl_pre sl =? 0)
+    | SFixed => true
+    end.
+  Definition srv_scope : bool := forallb scope_nc (cf_nodes cf).
+  Lemma scope_at j nc : srv_scope = true -> nthZ (cf_nodes cf) (j - 1) = Some nc -> scope_nc nc = true.
+  Proof.
+    unfold srv_scope. intros H Hn. rewrite forallb_forall in H. apply H. unfold nthZ in Hn. destruct (j - 1 <? 0); [discriminate|].
+    eapply nth_error_In; eauto.
+  Qed.
+
+
+  (* ---------- further pure steps ---------- *)
+  Lemma NodeOK_int_rm nc vm xs n int' f g c : Permutation (v_int n) (c :: int') -> In c xs ->
+    NodeOK nc vm xs n f g -> NodeOK nc vm xs (with_int n int') f g.
+  Proof.
+    intros HP Hx. unfold NodeOK. cbn [with_int v_inf v_srv v_hi v_int]. replace (memv vm (with_int n int')) with (memv vm n) by reflexivity.
+    destruct (nc_srv nc).
+    - destruct (v_inf n); [auto|]. intros H. eapply FinOK_int_rm; eauto.
+    - intros [H1 H2]. split; [exact H1|eapply FinOK_int_rm; eauto].
+    - intros [H1 _]. rewrite H1 in HP. apply Permutation_nil in HP. discriminate.
+  Qed.
+  Lemma LV_int_g fl vm xs w j n int' :
+    LV fl vm xs w -> wnode w j = Some n ->
+    (forall nc, nthZ (cf_nodes cf) (j - 1) = Some nc -> NodeOK nc vm xs n (isvv w) (iflag w) -> NodeOK nc vm xs (with_int n int') (isvv w) (iflag w)) ->
+    LV fl vm xs (wputn (with_int n int') w).
+  Proof.
+    intros HL Hn Hf. destruct (LV_node _ _ _ _ _ _ HL Hn) as (k & nc & Hjk & Hk & Hc & Hcz & _).
+    eapply LV_step_n; [exact HL|exact Hk|reflexivity..|].
+    intros nc' Hc'. rewrite Hc in Hc'. injection Hc' as <-. apply Hf. exact Hcz.
+  Qed.
+
+  Lemma ht_exit_accept fl xs i c : ht (fun w => LV (i :: fl) None xs w) (exit_accept i c) (fun _ w => LV fl None xs w).
+  Proof.
+    eapply ht_vw with (F := fun w => mkVw (w_ns w) (w_ex w ++ [i]) (w_en w + 1) (w_cr w) (deliv i (w_is w))).
+    - intros s a s' E _. unfold exit_accept, bind, del_ind, modify in E. injection E as _ <-. unfold VW. cbn. rewrite map_iv_del. reflexivity.
+    - intros _ w HI HL. split; [exact HI|apply LV_exit; exact HL].
+  Qed.
+
+  Definition NIa (j i : Z) (w : view) : Prop := forall n, wnode w j = Some n -> v_inf n = false -> ~ In i (v_int n).
+
+  (* the first write of release / renege: customer i leaves its queue *)
+  Lemma rel_rm fl xs w0 j i nd p q q' nd1 :
+    LV fl None xs w0 -> cur j nd w0 -> nthZ (n_queues nd) p = Some q -> remove_first i q = Some q' ->
+    n_id nd1 = n_id nd -> n_pop nd1 = n_pop nd - 1 -> n_queues nd1 = updZ (n_queues nd) p q' -> n_servers nd1 = n_servers nd ->
+    nd_inf nd1 = nd_inf nd -> n_highest nd1 = n_highest nd -> n_interrupted nd1 = n_interrupted nd ->
+    LV fl (Some (j, i)) xs (wputn (nv nd1) w0) /\ wnode (wputn (nv nd1) w0) j = Some (nv nd1) /\ In i (mem (nv nd)).
+  Proof.
+    intros HL [Hid Hn] Hq Hr E1 E2 E3 E4 E5 E6 E7. pose proof (LV_idx _ _ _ _ HL) as HI.
+    destruct (wnode_nth _ _ _ Hn) as (k & Hjk & Hk). destruct (nthZ_nat _ _ _ Hq) as (kp & Hkp & Hqk).
+    assert (HP : Permutation (mem (nv nd)) (i :: mem (nv nd1))).
+    { unfold mem, nv. cbn [v_qs]. rewrite E3, Hkp, updZ_nat. symmetry. eapply Conserve2.concat_upd_rm; [exact Hqk|].
+      apply Conserve2.remove_first_perm. exact Hr. }
+    split; [|split].
+    - replace j with (v_id (nv nd)) by exact Hid.
+      eapply LV_rm; [exact HL|exact Hk|cbn; exact E1|cbn; exact E2|exact HP|unfold nv; cbn; rewrite E4; reflexivity|cbn; exact E5|cbn; exact E6|cbn; exact E7].
+    - eapply wnode_wputn; [exact HI|exact Hn|cbn; exact E1].
+    - eapply Permutation_in; [symmetry; exact HP|left; reflexivity].
+  Qed.
+
+
+  (* ====================================================================================================================== *)
+  (* Part 5.  The recursive core                                                                                          *)
+  (* ====================================================================================================================== *)
+  Section Core.
+  Hypothesis HS : srv_scope = true.
+
+  (* the customer that has left its queue: still a (virtual) customer of node j *)
+  Definition VMj (j i : Z) (b : bool) (w : view) : Prop :=
+    exists n, wnode w j = Some n /\ v_inf n = b /\ (v_inf n = false -> ~ In i (v_int n)) /\ In i (memv (Some (j, i)) n).
+
+  Lemma vm_to_fl fl xs w j i b : LV fl (Some (j, i)) xs w -> VMj j i b w -> isvv w i = None -> (forall a, In a xs -> a = i) ->
+    LV (i :: fl) None [] w.
+  Proof.
+    intros HL (n & Hn & Hb & Hni & Hm) Hf Hx. pose proof (LV_idx _ _ _ _ HL) as HI.
+    assert (H1 : LV (i :: fl) None xs w).
+    { apply (LV_vm_fl fl xs w j i HL Hf). intros k n' Hk Hid Hinf. pose proof (nth_wnode _ _ _ HI Hk) as Hn'. rewrite Hid, Hn in Hn'. injection Hn' as <-. auto. }
+    apply (LV_xs_fl (i :: fl) None xs w i (or_introl eq_refl)) in H1. eapply LV_xs; [|exact H1].
+    intros a Ha. apply in_remove in Ha as [Ha Hne]. apply Hx in Ha. contradiction.
+  Qed.
+
+  Lemma rel_step f :
+    (forall j i fl, ht (fun w => LV (i :: fl) None [] w) (accept cf f j i) (fun _ w => LV fl None [] w)) ->
+    (forall j fl, ht (fun w => LV fl None [] w) (release_blocked_individual cf f j) (fun _ w => LV fl None [] w)) ->
+    forall j i d rr fl xs, (forall a, In a xs -> a = i) ->
+      ht (fun w => LV fl None xs w /\ NIa j i w) (release cf (S f) j i d rr) (fun _ w => LV fl None [] w).
+  Proof.
+    intros IHa IHb j i d rr fl xs Hxs. cbn [release].
+    hK. hind x. hnode nd. unfold ncfg_of. hliftc nc Hnc. hliftc q Hq. hliftc q' Hq'.
+    set (nd1 := nd <| n_queues := updZ (n_queues nd) (i_pprio x) q' |> <| n_pop := n_pop nd - 1 |> <| n_insvc := n_insvc nd - 1 |>).
+    eapply ht_bind with (Q := fun _ w => LV fl (Some (j, i)) xs w /\ VMj j i (nd_inf nd) w /\ curi i x w).
+    { eapply ht_post; [apply ht_put_node|]. intros _ w _ (w0 & HI0 & (((HL & HNI) & Hx) & Hcur) & ->).
+      destruct (rel_rm fl xs w0 j i nd (i_pprio x) q q' nd1 HL Hcur Hq Hq') as (HL1 & Hn1 & Hmem); try reflexivity.
+      split; [exact HL1|]. split; [|exact Hx].
+      exists (nv nd1). split; [exact Hn1|]. split; [reflexivity|]. split.
+      - intros Hinf. apply (HNI (nv nd)); [apply Hcur|exact Hinf].
+      - unfold memv. replace (v_id (nv nd1)) with j by (symmetry; apply Hcur). rewrite vmof_same. apply in_or_app. right. left. reflexivity. }
+    intros ?.
+    eapply ht_bind; [eapply ht_KK with (K := fun w => oki w x); [pva|intros w Hw; apply (curi_oki i); apply Hw]|intros ?].
+    hK.
+    eapply ht_bind with (Q := fun freed w => LV fl (Some (j, i)) xs w /\ VMj j i (nd_inf nd) w /\
+                              if negb (nd_inf nd) && negb (nc_slotted nc) then isvv w i = None /\ exists sid, freed = Some sid /\ FA j sid w else freed = None).
+    { destruct (negb (nd_inf nd) && negb (nc_slotted nc)) eqn:Ek.
+      - apply andb_true_iff in Ek as [Ek1 Ek2]. apply negb_true_iff in Ek1, Ek2.
+        hind x1. hlift sid. eapply ht_bind; [apply ht_detach_sp|intros ?]. eapply ht_post; [apply ht_ret|].
+        intros fr w _ [(w0 & n & ob & HI0 & (((HL & HV & _) & Hx1) & Hsid) & Hn & Hob & ->) ->].
+        destruct HV as (n' & Hn' & Hb & Hni & Hm). rewrite Hn in Hn'. injection Hn' as <-. rewrite Ek1 in Hb.
+        assert (Hfi : isvv w0 i = Some sid) by (destruct Hx1 as [_ Hf]; unfold isvv; rewrite Hf; exact Hsid).
+        destruct (LV_node _ _ _ _ _ _ HL Hn) as (k & nc' & Hjk & Hk & Hc & Hcz & HN).
+        assert (Enc : nc' = nc) by congruence. subst nc'.
+        pose proof (NodeOK_fin _ _ _ _ _ _ Ek2 Hb HN) as HF.
+        destruct (detn_same sid n) as (D1 & D2 & D3 & D4 & D5 & D6).
+        assert (Hn1 : wnode (wputi (i, (None, snd ob)) (wputn (detn sid n) w0)) j = Some (detn sid n))
+          by (rewrite wnode_wputi; eapply wnode_wputn; eauto).
+        split; [|split; [|split]].
+        + rewrite <- (detv_eq _ _ _ _ _ _ HI0 Hn Hob). eapply LV_detv; eauto.
+        + exists (detn sid n). split; [exact Hn1|]. split; [congruence|]. split; [rewrite D4, D6; exact Hni|].
+          unfold memv, mem in *. rewrite D1, D3. exact Hm.
+        + rewrite isvv_wputi, Z.eqb_refl. reflexivity.
+        + exists sid. split; [reflexivity|]. exists (detn sid n). split; [exact Hn1|]. split; [congruence|].
+          intros t'. apply detn_free. exact (fo_nd _ _ _ _ _ _ _ _ HF).
+      - eapply ht_post; [apply ht_ret|]. intros fr w _ [(HL & HV & _) ->]. auto. }
+    intros freed.
+    eapply ht_bind with (Q := fun _ w => LV (i :: fl) None [] w /\ forall sid, freed = Some sid -> FA j sid w).
+    { destruct (nc_slotted nc) eqn:Esl.
+      - unfold upd_ind. hind y. eapply ht_post; [apply ht_put_ind|].
+        intros _ w _ (w0 & HI0 & ((HL & HV & Hfr) & Hy) & ->).
+        rewrite andb_false_r in Hfr. subst freed. split; [|discriminate].
+        destruct HV as (n & Hn & Hb & Hni & Hm). destruct Hy as [Hyi Hyf].
+        replace (iv (y <| i_server := None |>)) with (i, (None : option Z, i_interrupted y)) by (rewrite <- Hyi; reflexivity).
+        destruct (LV_node _ _ _ _ _ _ HL Hn) as (k & nc' & Hjk & Hk & Hc & Hcz & HN).
+        assert (HL1 : LV fl (Some (j, i)) xs (wputi (i, (None, i_interrupted y)) w0)).
+        { rewrite <- (wputn_same n w0) at 1; [|rewrite (wnode_id _ _ _ HI0 Hn); unfold wnode in Hn; destruct (j <? 1); [discriminate|exact Hn]].
+          eapply LV_step_io; [exact HL|exact Hk|exact Hm|reflexivity..|].
+          intros nc2 Hc2 HN2. assert (nc2 = nc) by congruence. subst nc2. unfold NodeOK in *. unfold nc_slotted in Esl.
+          destruct (nc_srv nc); try discriminate. exact HN2. }
+        eapply vm_to_fl; [exact HL1| |rewrite isvv_wputi, Z.eqb_refl; reflexivity|exact Hxs].
+        exists n. split; [rewrite wnode_wputi; exact Hn|]. auto.
+      - eapply ht_post; [apply ht_ret|]. intros _ w _ [(HL & HV & Hfr) _]. rewrite andb_true_r in Hfr.
+        destruct (nd_inf nd) eqn:Einf; cbn [negb] in Hfr.
+        + subst freed. split; [|discriminate]. destruct HV as (n & Hn & Hb & Hni & Hm).
+          destruct (LV_node _ _ _ _ _ _ HL Hn) as (k & nc' & Hjk & Hk & Hc & Hcz & HN).
+          eapply vm_to_fl; [exact HL|exists n; eauto| |exact Hxs].
+          unfold NodeOK in HN. rewrite Hb in HN. destruct (nc_srv nc') eqn:Esrv; [apply HN; exact Hm|destruct HN; discriminate|].
+          assert (nc' = nc) by congruence. subst nc'. unfold nc_slotted in Esl. rewrite Esrv in Esl. discriminate.
+        + destruct Hfr as (Hf & sid & -> & HFA). split; [eapply vm_to_fl; eauto|]. intros sid' E. injection E as <-. exact HFA. }
+    intros ?.
+    hK.
+    eapply ht_bind with (Q := fun _ w => LV (i :: fl) None [] w).
+    { destruct rr.
+      - eapply ht_post; [apply ht_ret|]. intros _ w _ [[HL _] _]. exact HL.
+      - apply ht_bsip_release. }
+    intros ?.
+    eapply ht_bind with (Q := fun _ w => LV fl None [] w).
+    { destruct (d =? -1); [apply ht_exit_accept|apply IHa]. }
+    intros ?.
+    destruct rr; [eapply ht_post; [apply ht_ret|]; intros _ w _ [HL _]; exact HL|apply IHb].
+  Qed.
+
+  (* release_blocked_individual *)
+  Lemma rbi_step f :
+    (forall j i d rr fl xs, (forall a, In a xs -> a = i) ->
+       ht (fun w => LV fl None xs w /\ NIa j i w) (release cf f j i d rr) (fun _ w => LV fl None [] w)) ->
+    forall j fl, ht (fun w => LV fl None [] w) (release_blocked_individual cf (S f) j) (fun _ w => LV fl None [] w).
+  Proof.
+    intros IHr j fl. cbn [release_blocked_individual].
+    hnode nd. hK.
+    match goal with |- ht _ (if ?b then _ else _) _ => destruct b end; [|eapply ht_post; [apply ht_ret|]; intros _ w _ [[HL _] _]; exact HL].
+    destruct (n_bq nd) as [|[from y] rest]; [apply ht_fail|].
+    hnode fnd. hK.
+    eapply ht_bind; [eapply ht_KK with (K := fun w => okn w nd); [pva|intros w Hw; apply (cur_okn j); apply Hw]|intros ?].
+    hind yx.
+    eapply ht_bind with (Q := fun _ w => LV fl None (if i_interrupted yx then [y] else []) w /\ NIa from y w).
+    { destruct (i_interrupted yx) eqn:Eint.
+      - hliftc os Hos. hliftc ot Hot.
+        eapply ht_bind with (Q := fun _ w => LV fl None [y] w).
+        { eapply ht_post; [apply ht_put_ind|]. intros _ w _ (w0 & HI0 & (((HL & _) & _) & [Hyi Hyf]) & ->).
+          match goal with |- context [wputi (iv ?z) _] => replace (iv z) with (y, (i_server yx, false)) by (rewrite <- Hyi; reflexivity) end.
+          eapply LV_flag; [eapply LV_xs; [|exact HL]; intros ? []|left; reflexivity|exact Hyf]. }
+        intros ?. hnode fnd2. hliftc l' Hl'.
+        eapply ht_post; [apply ht_put_node|]. intros _ w _ (w0 & HI0 & (HL & [Hid Hn]) & ->).
+        replace (nv (fnd2 <| n_interrupted := l' |> <| n_nint := n_nint fnd2 - 1 |>)) with (with_int (nv fnd2) l') by reflexivity.
+        pose proof (Conserve2.remove_first_perm _ _ _ Hl') as HPm.
+        split.
+        + eapply LV_int_g; [exact HL|exact Hn|]. intros nc Hc HN. eapply NodeOK_int_rm; [exact HPm|left; reflexivity|exact HN].
+        + intros n Hn' Hinf. rewrite (wnode_wputn w0 from (nv fnd2) (with_int (nv fnd2) l') HI0 Hn eq_refl) in Hn'. injection Hn' as <-. cbn [with_int v_int].
+          destruct (LV_node _ _ _ _ _ _ HL Hn) as (k & nc & Hjk & Hk & Hc & Hcz & HN).
+          assert (HNd : NoDup (n_interrupted fnd2)).
+          { unfold NodeOK in HN. cbn [with_int v_inf] in Hinf. change (v_inf (nv fnd2)) with (nd_inf fnd2) in *. rewrite Hinf in HN.
+            destruct (nc_srv nc); [exact (fo_intnd _ _ _ _ _ _ _ _ HN)|exact (fo_intnd _ _ _ _ _ _ _ _ (proj2 HN))|].
+            destruct HN as [E _]. cbn in E. rewrite E in HPm. apply Permutation_nil in HPm. discriminate. }
+          eapply Permutation_NoDup in HNd; [|exact HPm]. inversion HNd; assumption.
+      - eapply ht_post; [apply ht_ret|]. intros _ w _ [(((HL & _) & _) & [Hyi Hyf]) _]. split; [exact HL|].
+        intros n Hn Hinf Hin. destruct (LV_node _ _ _ _ _ _ HL Hn) as (k & nc & Hjk & Hk & Hc & Hcz & HN).
+        unfold NodeOK in HN. rewrite Hinf in HN.
+        assert (HFin : FinOK (nc_preempt nc) [] (memv None n) (v_srv n) (v_hi n) (v_int n) (isvv w) (iflag w)).
+        { destruct (nc_srv nc); [exact HN|exact (proj2 HN)|]. destruct HN as [E _]. rewrite E in Hin. destruct Hin. }
+        destruct (fo_int _ _ _ _ _ _ _ _ HFin y Hin) as [_ Hst]. destruct (Hst (fun F => F)) as (Hg & _).
+        unfold iflag in Hg. rewrite Hyf in Hg. cbn in Hg. congruence. }
+    intros ?.
+    eapply ht_pre; [|apply (IHr from y j false fl (if i_interrupted yx then [y] else []))].
+    - intros w _ H. exact H.
+    - intros z Hz. destruct (i_interrupted yx); [destruct Hz as [<-|[]]; reflexivity|destruct Hz].
+  Qed.
+
+  (* preempt (options resume / restart / resample): the victim gives its server to the pre-emptor *)
+  Definition PreOK (j v i : Z) (w : view) : Prop :=
+    (exists nc, nthZ (cf_nodes cf) (j - 1) = Some nc /\ nc_preempt nc <> 0) /\
+    exists n t, wnode w j = Some n /\ v_inf n = false /\ In t (v_srv n) /\ s_cust t = Some v /\ In i (mem n) /\ isvv w i = None.
+
+  Lemma pre_step f : forall j v i fl,
+    ht (fun w => LV fl None [] w /\ PreOK j v i w) (preempt cf (S f) j v i) (fun _ w => LV fl None [] w).
+  Proof.
+    intros j v i fl. cbn [preempt].
+    hK. hind vx. unfold ncfg_of. hliftc nc Hnc.
+    eapply ht_bind; [eapply ht_KK with (K := fun w => oki w vx); [pva|intros w Hw; apply (curi_oki v); apply Hw]|intros ?].
+    assert (Hp4 : nc_preempt nc =? 4 = false).
+    { pose proof (scope_at j nc HS Hnc) as Hsc. unfold scope_nc in Hsc. apply andb_true_iff in Hsc as [Hsc _]. apply andb_true_iff in Hsc as [Hsc _].
+      apply negb_true_iff in Hsc. exact Hsc. }
+    rewrite Hp4.
+    eapply ht_bind with (Q := fun _ w => exists sid, i_server vx = Some sid /\ LV fl None [] w /\ PF j [sid] w /\ Wt None [] j i w).
+    { hK. hK. hliftc sid Hsid. eapply ht_bind; [apply ht_detach_sp|intros ?].
+      eapply ht_post; [apply ht_K; pva|].
+      intros _ w _ (w0 & n & ob & HI0 & ((HL & HPre) & [Hvi Hvf]) & Hn & Hob & ->).
+      destruct HPre as ((nc' & Hnc' & Hpre) & n' & t & Hn' & Hinf & Ht & Htc & Him & Hif). rewrite Hn in Hn'. injection Hn' as <-.
+      assert (nc' = nc) by congruence. subst nc'.
+      destruct (LV_node _ _ _ _ _ _ HL Hn) as (k & nc' & Hjk & Hk & Hc & Hcz & HN). assert (nc' = nc) by congruence. subst nc'.
+      assert (Hns : nc_slotted nc = false) by (eapply PF_slot; eauto; apply in_map; exact Ht).
+      pose proof (NodeOK_fin _ _ _ _ _ _ Hns Hinf HN) as HF.
+      destruct (fo_cust _ _ _ _ _ _ _ _ HF t v Ht Htc) as [Hvm Hvs].
+      assert (Esid : s_id t = sid) by (unfold isvv in Hvs; rewrite Hvf in Hvs; cbn in Hvs; congruence).
+      assert (Hfs : fsv sid (v_srv n) = Some t) by (apply fsv_In; [exact (fo_nd _ _ _ _ _ _ _ _ HF)|exact Ht|exact Esid]).
+      assert (Hoff : s_off t = false) by (apply (fo_off _ _ _ _ _ _ _ _ HF Hpre t Ht)).
+      assert (Hvni : ~ In v (v_int n)).
+      { intros Hin. destruct (fo_int _ _ _ _ _ _ _ _ HF v Hin) as [_ Hst]. destruct (Hst (fun F => F)) as (_ & k' & Hk' & Hs').
+        rewrite Hvs in Hk'. injection Hk' as <-. apply Hs'. apply in_map. exact Ht. }
+      assert (Hini : ~ In i (v_int n)).
+      { intros Hin. destruct (fo_int _ _ _ _ _ _ _ _ HF i Hin) as [_ Hst]. destruct (Hst (fun F => F)) as (_ & k' & Hk' & _). congruence. }
+      destruct (detn_same sid n) as (D1 & D2 & D3 & D4 & D5 & D6). destruct (detn_present sid n t Hfs Hoff) as [P1 P2].
+      assert (Hn1 : wnode (wputi (v, (None, snd ob)) (wputn (detn sid n) w0)) j = Some (detn sid n))
+        by (rewrite wnode_wputi; eapply wnode_wputn; eauto).
+      exists sid. split; [exact Hsid|]. split; [|split].
+      - rewrite <- (detv_eq _ _ _ _ _ _ HI0 Hn Hob). eapply LV_detv; eauto. rewrite Hvs, Esid. reflexivity.
+      - exists (detn sid n). split; [exact Hn1|]. split; [congruence|]. intros s [<-|[]]. eexists. split; [exact P1|reflexivity].
+      - exists (detn sid n). split; [exact Hn1|]. split; [unfold memv, mem; rewrite D3; apply in_or_app; left; exact Him|].
+        split; [|rewrite D6; intros F; contradiction]. left. rewrite isvv_wputi. destruct (v =? i); [reflexivity|exact Hif]. }
+    intros ?. hliftc sid Hsid.
+    eapply ht_post; [eapply ht_pre; [|apply (ht_start_preemptor fl None [] j sid [] i)]|]; [|intros []|intros _ w _ [HL _]; exact HL].
+    intros w _ (sid' & Hs' & HL & HP & HW). assert (sid' = sid) by congruence. subst sid'. auto.
+  Qed.
+
+  (* accept *)
+  Lemma acc_step f :
+    (forall j v i fl, ht (fun w => LV fl None [] w /\ PreOK j v i w) (preempt cf f j v i) (fun _ w => LV fl None [] w)) ->
+    forall j i fl, ht (fun w => LV (i :: fl) None [] w) (accept cf (S f) j i) (fun _ w => LV fl None [] w).
+  Proof.
+    intros IHp j i fl. cbn [accept].
+    hind x. hnode nd.
+    eapply ht_bind; [eapply ht_KK with (K := fun w => oki w x); [pva|intros w Hw; apply (curi_oki i); apply Hw]|intros ?].
+    hliftc qs Hqs.
+    eapply ht_bind with (Q := fun _ w => LV fl None [] w).
+    { eapply ht_post; [apply ht_put_node|]. intros _ w _ (w0 & HI0 & ((HL & Hx) & [Hid Hn]) & ->).
+      destruct (nthZ (n_queues nd) (i_prio x)) as [q|] eqn:Eq; [|discriminate]. injection Hqs as <-.
+      destruct (wnode_nth _ _ _ Hn) as (k & Hjk & Hk). destruct (nthZ_nat _ _ _ Eq) as (kp & Hkp & Hqk).
+      eapply LV_add; [exact HL|exact Hk|reflexivity|reflexivity| |reflexivity..].
+      unfold mem, nv. cbn [v_qs]. replace (n_queues (nd <| n_queues := updZ (n_queues nd) (i_prio x) (q ++ [i]) |> <| n_pop := n_pop nd + 1 |>))
+        with (updZ (n_queues nd) (i_prio x) (q ++ [i])) by reflexivity.
+      rewrite Hkp, updZ_nat. eapply Conserve2.concat_upd_add; [exact Hqk|]. rewrite Permutation_app_comm. reflexivity. }
+    intros ?. hK. hK. unfold ncfg_of. hliftc nc Hnc. hK. hK. hnode nd1.
+    eapply ht_bind with (Q := fun cand w => (LV fl None [] w /\ cur j nd1 w) /\ (nd_inf nd1 = false -> Cn j cand w)).
+    { destruct (nd_inf nd1).
+      - eapply ht_post; [apply ht_ret|]. intros c w _ [H _]. split; [exact H|discriminate].
+      - eapply ht_post; [apply ht_choose|]. intros c w _ [H HC]. auto. }
+    intros cand. destruct cand as [c|]; [|eapply ht_post; [apply ht_ret|]; intros _ w _ [[[HL _] _] _]; exact HL].
+    destruct (nd_inf nd1) eqn:Einf; [eapply ht_post; [hk|]; intros _ w _ [[HL _] _]; exact HL|].
+    hind cx.
+    destruct (find_free_server_for (nc_spf nc) (i_cls cx) (n_servers nd1)) as [sv|] eqn:Efree.
+    - apply find_free_server_for_In in Efree as [Hsv Hbusy].
+      eapply ht_post; [eapply ht_pre; [|apply (ht_start_fresh fl None [] j (sv_id sv) [] c true)]|]; [|intros []|intros _ w _ [HL _]; exact HL].
+      intros w _ (((HL & [Hid Hn]) & HC) & _). specialize (HC eq_refl).
+      destruct (LV_node _ _ _ _ _ _ HL Hn) as (k & nc' & Hjk & Hk & Hc & Hcz & HN).
+      assert (Hin : In (sc sv) (v_srv (nv nd1))) by (cbn; apply in_map; exact Hsv).
+      assert (Hns : nc_slotted nc' = false) by (eapply PF_slot; eauto; apply (in_map s_id _ _ Hin)).
+      pose proof (NodeOK_fin nc' None [] (nv nd1) _ _ Hns Einf HN) as HF.
+      assert (HPF : PF j [sv_id sv] w).
+      { exists (nv nd1). split; [exact Hn|]. split; [exact Einf|]. intros s [<-|[]]. exists (sc sv).
+        split; [apply fsv_In; [exact (fo_nd _ _ _ _ _ _ _ _ HF)|exact Hin|reflexivity]|].
+        pose proof (fo_busy _ _ _ _ _ _ _ _ HF _ Hin) as Hb. cbn in Hb. rewrite Hbusy in Hb. cbn. destruct (sv_cust sv); [discriminate|reflexivity]. }
+      split; [exact HL|]. split; [exact HPF|]. eapply Cn_Wt; eauto.
+    - destruct (0 <? numo (n_c nd1)); [|eapply ht_post; [apply ht_ret|]; intros _ w _ [[[[HL _] _] _] _]; exact HL].
+      eapply ht_bind; [apply ht_preempt_victim|intros v]. destruct v as [vi|]; [|eapply ht_post; [apply ht_ret|]; intros _ w _ [[[[[HL _] _] _] _] _]; exact HL].
+      eapply ht_pre; [|apply IHp]. intros w _ ((((HL & [Hid Hn]) & HC) & _) & HV). specialize (HC eq_refl).
+      destruct (HV vi eq_refl) as (Hcfg & n & t & Hn' & Ht & Htc). rewrite Hn in Hn'. injection Hn' as <-.
+      destruct HC as (n' & Hn' & Hcm & Hcf). rewrite Hn in Hn'. injection Hn' as <-.
+      split; [exact HL|]. split; [exact Hcfg|]. exists (nv nd1), t. auto 10.
+  Qed.
+
+  Lemma core_spec : forall f,
+    (forall j i d rr fl xs, (forall a, In a xs -> a = i) ->
+       ht (fun w => LV fl None xs w /\ NIa j i w) (release cf f j i d rr) (fun _ w => LV fl None [] w)) /\
+    (forall j fl, ht (fun w => LV fl None [] w) (release_blocked_individual cf f j) (fun _ w => LV fl None [] w)) /\
+    (forall j i fl, ht (fun w => LV (i :: fl) None [] w) (accept cf f j i) (fun _ w => LV fl None [] w)) /\
+    (forall j v i fl, ht (fun w => LV fl None [] w /\ PreOK j v i w) (preempt cf f j v i) (fun _ w => LV fl None [] w)).
+  Proof.
+    induction f as [|f (IHr & IHb & IHa & IHp)].
+    - repeat split; intros; match goal with H : _ = Ok _ |- _ => discriminate H end.
+    - split; [|split; [|split]].
+      + apply rel_step; assumption.
+      + apply rbi_step; assumption.
+      + apply acc_step; assumption.
+      + apply pre_step.
+  Qed.
+  Lemma ht_release f j i d rr fl xs : (forall a, In a xs -> a = i) ->
+    ht (fun w => LV fl None xs w /\ NIa j i w) (release cf f j i d rr) (fun _ w => LV fl None [] w).
+  Proof. apply core_spec. Qed.
+  Lemma ht_rbi f j fl : ht (fun w => LV fl None [] w) (release_blocked_individual cf f j) (fun _ w => LV fl None [] w).
+  Proof. apply core_spec. Qed.
+  Lemma ht_accept f j i fl : ht (fun w => LV (i :: fl) None [] w) (accept cf f j i) (fun _ w => LV fl None [] w).
+  Proof. apply core_spec. Qed.
+  Lemma ht_preempt f j v i fl : ht (fun w => LV fl None [] w /\ PreOK j v i w) (preempt cf f j v i) (fun _ w => LV fl None [] w).
+  Proof. apply core_spec. Qed.
+
+  (* ====================================================================================================================== *)
+  (* Part 6.  The event functions                                                                                         *)
+  (* ====================================================================================================================== *)
+  Lemma ht_gets_cr (P : view -> Prop) : ht P (gets (fun s => a_created (arr s))) (fun i w => P w /\ i = w_cr w).
+  Proof. intros s a s' HI HP E. apply gets_inv in E as [-> ->]. auto. Qed.
+  Lemma ht_decide_between (P : view -> Prop) l : ht P (decide_between l) (fun i w => P w /\ In i l).
+  Proof.
+    intros s a s' HI HP E. assert (V : VW s' = VW s) by (eapply pv_decide_between; eauto; exact I). rewrite V. split; [exact HI|]. split; [exact HP|].
+    unfold decide_between in E. destruct l as [|x [|y r]]; [discriminate|apply ret_inv in E as [-> _]; left; reflexivity|].
+    unfold choice_uniform in E. minv E u s1 E1. apply lift_inv in E as [E _]. eapply nth_error_In; eauto.
+  Qed.
+
+  (* a precondition on the state itself (the boundary facts about n_next_inds) *)
+  Definition htS {X} (Ps : sim -> Prop) (m : M X) (Q : X -> view -> Prop) : Prop :=
+    forall s a s', idxv (VW s) -> Ps s -> m s = Ok (a, s') -> idxv (VW s') /\ Q a (VW s').
+  Lemma htS_node {X} (Ps : sim -> Prop) (Pv : node -> view -> Prop) j (f : node -> M X) Q :
+    (forall s nd, Ps s -> nthZ (nodes s) (j - 1) = Some nd -> Pv nd (VW s)) ->
+    (forall nd, ht (fun w => Pv nd w /\ cur j nd w) (f nd) Q) -> htS Ps (bind (get_node j) f) Q.
+  Proof.
+    intros HP Hf s a s' HI HPs E. unfold bind in E. destruct (get_node j s) as [[nd s1]| |] eqn:E1; try discriminate.
+    pose proof E1 as E1'. apply get_node_spec in E1' as (-> & Hj & Hn).
+    destruct (ht_get_node (fun _ => True) j s nd s HI I E1) as [_ [_ Hcur]].
+    eapply Hf; [exact HI| |exact E]. split; [eapply HP; eauto|exact Hcur].
+  Qed.
+  Lemma htS_gets {X Y} (Ps : sim -> Prop) (g : sim -> X) (f : X -> M Y) Q : (forall a, htS Ps (f a) Q) -> htS Ps (bind (gets g) f) Q.
+  Proof. intros Hf s a s' HI HPs E. unfold bind, gets in E. eapply Hf; eauto. Qed.
+  Lemma htS_ht {X} (Ps : sim -> Prop) (P : view -> Prop) (m : M X) Q : (forall s, Ps s -> P (VW s)) -> ht P m Q -> htS Ps m Q.
+  Proof. intros HP H s a s' HI HPs E. eapply H; eauto. Qed.
+
+  Lemma waiting_notint fl vm xs w j n i : LV fl vm xs w -> wnode w j = Some n -> isvv w i = None -> ~ In i xs -> v_inf n = false -> ~ In i (v_int n).
+  Proof.
+    intros HL Hn Hf Hx Hinf Hin. destruct (LV_node _ _ _ _ _ _ HL Hn) as (k & nc & Hjk & Hk & Hc & Hcz & HN).
+    destruct (nc_slotted nc) eqn:Es.
+    - destruct (NodeOK_slot _ _ _ _ _ _ Es HN) as [E _]. rewrite E in Hin. destruct Hin.
+    - pose proof (NodeOK_fin _ _ _ _ _ _ Es Hinf HN) as HF. destruct (fo_int _ _ _ _ _ _ _ _ HF i Hin) as [_ Hst].
+      destruct (Hst Hx) as (_ & k' & Hk' & _). congruence.
+  Qed.
+
+  Lemma ht_finish_service j :
+    htS (fun s => LV [] None [] (VW s) /\ forall nd, nthZ (nodes s) (j - 1) = Some nd -> forall i, In i (n_next_inds nd) -> NIa j i (VW s))
+        (finish_service cf j) (fun _ w => LV [] None [] w).
+  Proof.
+    unfold finish_service.
+    apply htS_node with (Pv := fun nd w => LV [] None [] w /\ forall i, In i (n_next_inds nd) -> NIa j i w).
+    { intros s nd [HL HN] Hn. split; [exact HL|]. apply HN. exact Hn. }
+    intros nd. eapply ht_bind; [apply ht_decide_between|intros i].
+    hK. hK. hK. hK. hK. hK.
+    match goal with |- ht _ (if ?b then _ else _) _ => destruct b end.
+    - hK. eapply ht_pre; [|apply (ht_release _ j i _ false [] [])]; [|intros ? []].
+      intros w _ (((HL & HN) & _) & Hi). split; [exact HL|]. apply HN. exact Hi.
+    - eapply ht_post; [hk|]. intros _ w _ (((HL & _) & _) & _). exact HL.
+  Qed.
+
+  Lemma ht_renege j :
+    htS (fun s => LV [] None [] (VW s) /\ forall nd, nthZ (nodes s) (j - 1) = Some nd -> forall i, In i (n_next_inds nd) -> isvv (VW s) i = None)
+        (renege cf j) (fun _ w => LV [] None [] w).
+  Proof.
+    unfold renege. unfold tnow. apply htS_gets. intros t.
+    apply htS_node with (Pv := fun nd w => LV [] None [] w /\ forall i, In i (n_next_inds nd) -> isvv w i = None).
+    { intros s nd [HL HN] Hn. split; [exact HL|]. apply HN. exact Hn. }
+    intros nd. eapply ht_bind; [apply ht_decide_between|intros i].
+    hK. hK. hind x. hnode nd1. hliftc q Hq. hliftc q' Hq'.
+    set (nd2 := nd1 <| n_queues := updZ (n_queues nd1) (i_pprio x) q' |> <| n_pop := n_pop nd1 - 1 |>).
+    eapply ht_bind with (Q := fun _ w => LV [i] None [] w).
+    { eapply ht_post; [apply ht_put_node|]. intros _ w _ (w0 & HI0 & (((((HL & HN) & _) & Hi) & Hx) & Hcur) & ->).
+      destruct (rel_rm [] [] w0 j i nd1 (i_pprio x) q q' nd2 HL Hcur Hq Hq') as (HL1 & Hn1 & Hmem); try reflexivity.
+      eapply vm_to_fl with (b := nd_inf nd1); [exact HL1| |exact (HN i Hi)|intros ? []].
+      exists (nv nd2). split; [exact Hn1|]. split; [reflexivity|]. split.
+      - intros Hinf. change (v_int (nv nd2)) with (v_int (nv nd1)). eapply waiting_notint; [exact HL|apply Hcur|exact (HN i Hi)|intros []|exact Hinf].
+      - unfold memv. replace (v_id (nv nd2)) with j by (symmetry; apply Hcur). rewrite vmof_same. apply in_or_app. right. left. reflexivity. }
+    intros ?. hK. hK. hK. hK. hK.
+    eapply ht_bind with (Q := fun _ w => LV [] None [] w); [|intros ?; apply ht_rbi].
+    match goal with |- ht _ (if ?b then _ else _) _ => destruct b end; [apply ht_exit_accept|apply ht_accept].
+  Qed.
+
+  Lemma ht_ccww j : cf_dyn cf = true ->
+    ht (fun w => LV [] None [] w) (change_customer_class_while_waiting cf j) (fun _ w => LV [] None [] w).
+  Proof.
+    intros Hdyn. unfold change_customer_class_while_waiting.
+    hnode nd. hliftc i Hi. hind x. hliftc nc' Hnc'. hliftc p' Hp'.
+    eapply ht_bind; [eapply ht_KK with (K := fun w => oki w x); [pva|intros w Hw; apply (curi_oki i); apply Hw]|intros ?].
+    eapply ht_bind with (Q := fun _ w => LV [] None [] w); [|intros ?; hK; eapply ht_post; [hk|]; intros ? w ? H; exact H].
+    destruct (negb (p' =? i_pprio x)); [|eapply ht_post; [apply ht_ret|]; intros _ w _ [[[HL _] _] _]; exact HL].
+    hliftc q Hq. hliftc q' Hq'. cbv zeta. hliftc qn Hqn.
+    eapply ht_bind with (Q := fun _ w => LV [] None [] w).
+    { eapply ht_post; [apply ht_put_node|]. intros _ w _ (w0 & HI0 & ((HL & [Hid Hn]) & _) & ->).
+      destruct (wnode_nth _ _ _ Hn) as (k & Hjk & Hk).
+      eapply LV_mv; [exact HL|exact Hk|reflexivity|reflexivity| |reflexivity..].
+      unfold mem, nv. cbn [v_qs].
+      replace (n_queues (nd <| n_queues := updZ (updZ (n_queues nd) (i_pprio x) q') p' (qn ++ [i]) |>))
+        with (updZ (updZ (n_queues nd) (i_pprio x) q') p' (qn ++ [i])) by reflexivity.
+      destruct (nthZ_nat _ _ _ Hq) as (kp & Hkp & Hqk). rewrite Hkp, updZ_nat in *.
+      destruct (nthZ_nat _ _ _ Hqn) as (kn & Hkn & Hqnk). rewrite Hkn, updZ_nat.
+      rewrite (Conserve2.concat_upd_add _ _ _ (qn ++ [i]) i Hqnk); [|rewrite Permutation_app_comm; reflexivity].
+      eapply Conserve2.concat_upd_rm; [exact Hqk|]. apply Conserve2.remove_first_perm. exact Hq'. }
+    intros ?.
+    match goal with |- ht _ (if ?b then _ else _) _ => destruct b end; [|eapply ht_post; [apply ht_ret|]; intros _ w _ [HL _]; exact HL].
+    eapply ht_bind; [apply ht_preempt_victim|intros v]. destruct v as [vi|]; [|eapply ht_post; [apply ht_ret|]; intros _ w _ [[HL _] _]; exact HL].
+    eapply ht_pre; [|apply ht_false]. intros w _ [_ HV]. destruct (HV vi eq_refl) as [(nc & Hnc & Hpre) _].
+    pose proof (scope_at j nc HS Hnc) as Hsc. unfold scope_nc in Hsc. apply andb_true_iff in Hsc as [Hsc _]. apply andb_true_iff in Hsc as [_ Hsc].
+    rewrite Hdyn in Hsc. cbn in Hsc. apply Z.eqb_eq in Hsc. contradiction.
+  Qed.
+
+  (* ---------- schedules ---------- *)
+  Lemma ht_kill fl vm xs j sid S : ~ In sid S ->
+    ht (fun w => LV fl vm xs w /\ PF j (sid :: S) w) (kill_server j sid) (fun _ w => LV fl vm xs w /\ PF j S w).
+  Proof.
+    intros HnS. eapply ht_vw with (F := killv j sid); [intros s a s' E HI; apply (kill_server_vw _ _ _ _ _ E HI)|].
+    intros _ w HI (HL & (n & Hn & Hinf & HSv)). destruct (HSv sid (or_introl eq_refl)) as (t & Hfs & Hc).
+    assert (HL' : LV fl vm xs (killv j sid w)) by (eapply LV_killv; eauto; intros c Hc'; congruence).
+    split; [eapply LV_idx; eauto|]. split; [exact HL'|]. unfold killv. rewrite Hn.
+    exists (killn sid n). split; [eapply wnode_wputn; eauto|]. split; [exact Hinf|]. intros s Hs. cbn.
+    rewrite fsv_delsv_neq; [apply HSv; right; exact Hs|]. intros ->. contradiction.
+  Qed.
+  Lemma ht_forM_PF (P : list Z -> view -> Prop) (m : Z -> M unit) :
+    (forall sid S, ~ In sid S -> ht (P (sid :: S)) (m sid) (fun _ => P S)) ->
+    forall ids, NoDup ids -> ht (P ids) (forM_ ids m) (fun _ => P []).
+  Proof.
+    intros Hm. induction ids as [|sid r IH]; intros HN; cbn [forM_]; [eapply ht_post; [apply ht_ret|]; intros ? w ? [H _]; exact H|].
+    inversion HN as [|? ? Hn HNr]; subst. eapply ht_bind; [apply Hm; exact Hn|intros ?; apply IH; exact HNr].
+  Qed.
+
+  (* the servers of a finite, not slotted node that are not busy are idle *)
+  Lemma idle_PF fl vm xs w j nd : LV fl vm xs w -> cur j nd w -> nd_inf nd = false ->
+    (forall nc, nthZ (cf_nodes cf) (j - 1) = Some nc -> nc_slotted nc = false) ->
+    PF j (map sv_id (filter (fun sv => negb (sv_busy sv)) (n_servers nd))) w /\
+    NoDup (map sv_id (filter (fun sv => negb (sv_busy sv)) (n_servers nd))).
+  Proof.
+    intros HL [Hid Hn] Hinf Hns. destruct (LV_node _ _ _ _ _ _ HL Hn) as (k & nc & Hjk & Hk & Hc & Hcz & HN).
+    pose proof (NodeOK_fin nc vm xs (nv nd) _ _ (Hns nc Hcz) Hinf HN) as HF. pose proof (fo_nd _ _ _ _ _ _ _ _ HF) as HNd.
+    split.
+    - exists (nv nd). split; [exact Hn|]. split; [exact Hinf|]. intros s Hs. apply in_map_iff in Hs as (sv & <- & Hsv).
+      apply filter_In in Hsv as [Hsv Hb]. apply negb_true_iff in Hb.
+      assert (Hin : In (sc sv) (v_srv (nv nd))) by (cbn; apply in_map; exact Hsv).
+      exists (sc sv). split; [apply fsv_In; [exact HNd|exact Hin|reflexivity]|].
+      pose proof (fo_busy _ _ _ _ _ _ _ _ HF _ Hin) as Hbu. cbn in Hbu. rewrite Hb in Hbu. cbn. destruct (sv_cust sv); [discriminate|reflexivity].
+    - unfold sids in HNd. cbn in HNd. rewrite map_map in HNd. change (fun x => s_id (sc x)) with sv_id in HNd.
+      clear -HNd. induction (n_servers nd) as [|y r IH]; cbn; [constructor|]. cbn in HNd. inversion HNd as [|? ? Hn HNr]; subst.
+      destruct (negb (sv_busy y)); cbn; [|apply IH; exact HNr]. constructor; [|apply IH; exact HNr].
+      intros Hin. apply Hn. apply in_map_iff in Hin as (sv & E & Hsv). apply filter_In in Hsv as [Hsv _]. rewrite <- E. apply in_map. exact Hsv.
+  Qed.
+
+  Lemma ht_ctx {X} (P : view -> Prop) (phi : Prop) (m : M X) Q : (phi -> ht P m Q) -> ht (fun w => P w /\ phi) m Q.
+  Proof. intros H s a s' HI [HP Hphi] E. eapply H; eauto. Qed.
+
+  Lemma sched_fin fl vm xs w j n : LV fl vm xs w -> wnode w j = Some n ->
+    (forall nc, nthZ (cf_nodes cf) (j - 1) = Some nc -> exists sc, nc_srv nc = SSched sc) ->
+    v_inf n = false /\ forall nc, nthZ (cf_nodes cf) (j - 1) = Some nc -> nc_slotted nc = false.
+  Proof.
+    intros HL Hn Hsch. destruct (LV_node _ _ _ _ _ _ HL Hn) as (k & nc & Hjk & Hk & Hc & Hcz & HN).
+    destruct (Hsch nc Hcz) as [sc Hsc]. unfold NodeOK in HN. rewrite Hsc in HN. split; [apply HN|].
+    intros nc' Hc'. assert (nc' = nc) by congruence. subst nc'. unfold nc_slotted. rewrite Hsc. reflexivity.
+  Qed.
+
+  Lemma ht_bsip_change_shift j : (forall nc, nthZ (cf_nodes cf) (j - 1) = Some nc -> exists sc, nc_srv nc = SSched sc) ->
+    ht (fun w => LV [] None [] w) (begin_service_if_possible_change_shift cf j) (fun _ w => LV [] None [] w).
+  Proof.
+    intros Hsch. unfold begin_service_if_possible_change_shift. hnode nd.
+    set (ids := map sv_id (filter (fun sv => negb (sv_busy sv)) (n_servers nd))).
+    eapply ht_pre with (P := fun w => (LV [] None [] w /\ PF j ids w) /\ NoDup ids).
+    - intros w _ [HL Hcur]. destruct (sched_fin _ _ _ _ _ _ HL (proj2 Hcur) Hsch) as [Hinf Hns].
+      destruct (idle_PF _ _ _ _ _ _ HL Hcur Hinf Hns) as [H1 H2]. auto.
+    - apply ht_ctx. intros HN. eapply ht_post; [apply (ht_forM_PF (fun S w => LV [] None [] w /\ PF j S w) (serve_with cf j))|].
+      + intros sid S HnS. apply ht_serve_with. exact HnS.
+      + exact HN.
+      + intros ? w ? [HL _]. exact HL.
+  Qed.
+
+  Lemma ht_add_new_servers j k : (forall nc, nthZ (cf_nodes cf) (j - 1) = Some nc -> exists sc, nc_srv nc = SSched sc) ->
+    ht (fun w => LV [] None [] w) (add_new_servers k j) (fun _ w => LV [] None [] w).
+  Proof.
+    intros Hsch. induction k as [|k IH]; cbn [add_new_servers]; [eapply ht_post; [apply ht_ret|]; intros ? w ? [H _]; exact H|].
+    hK. eapply ht_bind; [|intros ?; exact IH]. unfold upd_node. hnode nd.
+    eapply ht_post; [apply ht_put_node|]. intros _ w _ (w0 & HI0 & (HL & [Hid Hn]) & ->).
+    match goal with |- context [wputn (nv ?nd') _] => replace (nv nd') with (with_new (nv nd)) by (unfold nv, with_new; cbn; rewrite map_app; reflexivity) end.
+    destruct (sched_fin _ _ _ _ _ _ HL Hn Hsch) as [Hinf Hns]. destruct (wnode_nth _ _ _ Hn) as (kk & Hjk & Hk).
+    eapply LV_step_n; [exact HL|exact Hk|reflexivity..|].
+    intros nc Hnc. assert (Hcz : nthZ (cf_nodes cf) (j - 1) = Some nc) by (rewrite Hjk, nthZ_of_nat; exact Hnc).
+    apply NodeOK_lift; try reflexivity; try exact Hinf.
+    - rewrite (Hns nc Hcz). discriminate.
+    - intros _ HF. cbn. apply FinOK_add_server. exact HF.
+  Qed.
+
+  Lemma sc_pre0 j nc sch : nthZ (cf_nodes cf) (j - 1) = Some nc -> nc_srv nc = SSched sch -> (sc_pre sch =? 4) = false /\ (sc_pre sch = 0 -> nc_preempt nc = 0).
+  Proof.
+    intros Hnc Hsc. pose proof (scope_at j nc HS Hnc) as H. unfold scope_nc in H. rewrite Hsc in H. apply andb_true_iff in H as [_ H].
+    apply andb_true_iff in H as [H1 H2]. apply negb_true_iff in H1. split; [exact H1|]. intros E. rewrite E in H2. cbn in H2.
+    rewrite orb_false_r in H2. apply Z.eqb_eq in H2. exact H2.
+  Qed.
+
+  (* non-pre-emptive schedule: busy servers go off duty, idle servers are retired *)
+  Lemma ht_take_off_nonpre f j nc sch : nthZ (cf_nodes cf) (j - 1) = Some nc -> nc_srv nc = SSched sch -> sc_pre sch = 0 ->
+    ht (fun w => LV [] None [] w) (take_servers_off_duty cf f j (sc_pre sch)) (fun _ w => LV [] None [] w).
+  Proof.
+    intros Hnc Hsc Hpre. unfold take_servers_off_duty. rewrite Hpre. cbn [Z.eqb]. change (0 =? 0) with true. cbv iota.
+    assert (Hsch : forall nc', nthZ (cf_nodes cf) (j - 1) = Some nc' -> exists sc', nc_srv nc' = SSched sc') by (intros nc' E; assert (nc' = nc) by congruence; subst nc'; eauto).
+    hnode nd. eapply ht_bind with (Q := fun _ w => LV [] None [] w /\ cur j nd w).
+    { destruct (n_next_date nd); [eapply ht_post; [apply ht_ret|]; intros ? w ? [H _]; exact H|apply ht_fail]. }
+    intros se.
+    set (g := fun sv : server => sv <| sv_shift_end := se |> <| sv_offduty := if sv_busy sv then true else sv_offduty sv |>).
+    set (ids := map sv_id (filter (fun sv => negb (sv_busy sv)) (n_servers nd))).
+    eapply ht_bind with (Q := fun _ w => (LV [] None [] w /\ PF j ids w) /\ NoDup ids).
+    { eapply ht_post; [apply ht_put_node|]. intros _ w _ (w0 & HI0 & (HL & Hcur) & ->). pose proof Hcur as [Hid Hn].
+      destruct (sched_fin _ _ _ _ _ _ HL Hn Hsch) as [Hinf Hns]. destruct (wnode_nth _ _ _ Hn) as (kk & Hjk & Hk).
+      destruct (idle_PF _ _ _ _ _ _ HL Hcur Hinf Hns) as [HPF HNd].
+      replace (nv (nd <| n_servers := map g (n_servers nd) |>)) with (with_srv (nv nd) (map sc (map g (n_servers nd)))) by reflexivity.
+      assert (Hm : map (fun t => (s_id t, s_cust t, s_busy t)) (map sc (map g (n_servers nd))) = map (fun t => (s_id t, s_cust t, s_busy t)) (v_srv (nv nd))).
+      { cbn. rewrite !map_map. apply map_ext. intros sv. reflexivity. }
+      assert (HL' : LV [] None [] (wputn (with_srv (nv nd) (map sc (map g (n_servers nd)))) w0)).
+      { eapply LV_step_n; [exact HL|exact Hk|reflexivity..|].
+        intros nc' Hnc'. assert (Hcz : nthZ (cf_nodes cf) (j - 1) = Some nc') by (rewrite Hjk, nthZ_of_nat; exact Hnc').
+        assert (nc' = nc) by congruence. subst nc'.
+        apply NodeOK_lift; try reflexivity; try exact Hinf; [rewrite (Hns nc Hcz); discriminate|].
+        intros _ HF. cbn [with_srv v_srv v_hi v_int]. rewrite (proj2 (sc_pre0 j nc sch Hnc Hsc) Hpre) in *. eapply FinOK_off; [exact Hm|exact HF]. }
+      split; [split; [exact HL'|]|exact HNd].
+      exists (with_srv (nv nd) (map sc (map g (n_servers nd)))). split; [eapply wnode_wputn; eauto|]. split; [exact Hinf|].
+      intros s Hs. destruct HPF as (n0 & Hn0 & _ & HSv). rewrite Hn in Hn0. injection Hn0 as <-. destruct (HSv s Hs) as (t & Hft & Hct).
+      cbn [with_srv v_srv]. cbn [v_srv nv] in Hft. clear -Hft Hct. revert Hft. induction (n_servers nd) as [|y r IH]; cbn; [discriminate|].
+      destruct (sv_id y =? s); [|exact IH]. intros E. injection E as <-. eexists. split; [reflexivity|exact Hct]. }
+    intros ?. apply ht_ctx. intros HN. eapply ht_post; [apply (ht_forM_PF (fun S w => LV [] None [] w /\ PF j S w) (kill_server j))|].
+    - intros sid S HnS. apply ht_kill. exact HnS.
+    - exact HN.
+    - intros ? w ? [HL _]. exact HL.
+  Qed.
+
+  (* ---------- pre-emptive schedule: every service is interrupted, every server retired ---------- *)
+  Definition Sh (j : Z) (X ids : list Z) (idx : nat) (w : view) : Prop :=
+    exists n, wnode w j = Some n /\ v_inf n = false /\ sids (v_srv n) = ids /\
+      (forall t c, In t (v_srv n) -> s_cust t = Some c -> In c X) /\
+      (forall c, In c X -> In c (mem n) /\ (exists k, isvv w c = Some k) /\ exists t, In t (v_srv n) /\ s_cust t = Some c) /\
+      (forall m t c, (m < idx)%nat -> nth_error (v_srv n) m = Some t -> s_cust t = Some c -> In c (v_int n) /\ iflag w c = true) /\
+      (forall m t c, (idx <= m)%nat -> nth_error (v_srv n) m = Some t -> s_cust t = Some c -> ~ In c (v_int n)).
+
+  Lemma NoDup_map_nth {A B} (f : A -> B) l a b x y : NoDup (map f l) -> nth_error l a = Some x -> nth_error l b = Some y -> f x = f y -> a = b.
+  Proof.
+    revert a b; induction l as [|h t IH]; intros a b HN Ha Hb He; [destruct a; discriminate|].
+    cbn in HN. inversion HN as [|? ? Hn HNt]; subst. destruct a as [|a], b as [|b]; cbn in Ha, Hb.
+    - reflexivity.
+    - injection Ha as ->. exfalso. apply Hn. rewrite He. apply in_map. eapply nth_error_In; eauto.
+    - injection Hb as ->. exfalso. apply Hn. rewrite <- He. apply in_map. eapply nth_error_In; eauto.
+    - f_equal. eapply IH; eauto.
+  Qed.
+
+  Lemma ht_upd_node_sp (P : view -> Prop) j g :
+    ht P (upd_node j g) (fun _ w => exists nd w0, idxv w0 /\ P w0 /\ cur j nd w0 /\ w = wputn (nv (g nd)) w0).
+  Proof.
+    unfold upd_node. hnode nd. eapply ht_post; [apply ht_put_node|]. intros _ w _ (w0 & HI0 & (HP & Hc) & ->). exists nd, w0. auto.
+  Qed.
+  Lemma ht_upd_ind_sp (P : view -> Prop) i g :
+    ht P (upd_ind i g) (fun _ w => exists x w0, idxv w0 /\ P w0 /\ curi i x w0 /\ w = wputi (iv (g x)) w0).
+  Proof.
+    unfold upd_ind. hind x. eapply ht_post; [apply ht_put_ind|]. intros _ w _ (w0 & HI0 & (HP & Hc) & ->). exists x, w0. auto.
+  Qed.
+
+  Lemma nv_set_int nd l k : nv (nd <| n_interrupted := l |> <| n_nint := k |>) = with_int (nv nd) l.
+  Proof. destruct nd; reflexivity. Qed.
+  Lemma iv_set_flag y b : iv (y <| i_interrupted := b |>) = (i_id y, (i_server y, b)).
+  Proof. destruct y; reflexivity. Qed.
+
+  Lemma ht_interrupt_service f j c pre X ids idx :
+    (pre =? 4) = false -> (forall nc, nthZ (cf_nodes cf) (j - 1) = Some nc -> nc_slotted nc = false) ->
+    ht (fun w => LV [] None X w /\ Sh j X ids idx w /\ exists n t, wnode w j = Some n /\ nth_error (v_srv n) idx = Some t /\ s_cust t = Some c)
+       (interrupt_service cf f j c pre) (fun _ w => LV [] None X w /\ Sh j X ids (S idx) w).
+  Proof.
+    intros Hp4 Hns. unfold interrupt_service. rewrite Hp4. hK. hK.
+    eapply ht_bind; [apply ht_upd_node_sp|intros ?].
+    eapply ht_bind with (Q := fun _ w => LV [] None X w /\ Sh j X ids (S idx) w); [|intros ?; hk].
+    eapply ht_post; [apply ht_upd_ind_sp|].
+    intros _ w _ (y & w1 & HI1 & (nd & w0 & HI0 & (HL & HSh & Hsv) & [Hid Hn] & ->) & [Hyi Hyf] & ->).
+    change (fiv c (w_is w0) = Some (i_server y, i_interrupted y)) in Hyf.
+    rewrite iv_set_flag, Hyi, nv_set_int. change (n_interrupted nd) with (v_int (nv nd)).
+    destruct HSh as (n & Hn' & Hinf & Hids & HcX & HX & Hlt & Hge). rewrite Hn in Hn'. injection Hn' as <-.
+    destruct Hsv as (n' & t0 & Hn' & Ht0 & Hc0). rewrite Hn in Hn'. injection Hn' as <-.
+    destruct (LV_node _ _ _ _ _ _ HL Hn) as (k & nc & Hjk & Hk & Hc & Hcz & HN).
+    pose proof (NodeOK_fin nc None X (nv nd) _ _ (Hns nc Hcz) Hinf HN) as HF.
+    assert (HcX0 : In c X) by (eapply HcX; [eapply nth_error_In; exact Ht0|exact Hc0]).
+    assert (Hcni : ~ In c (v_int (nv nd))) by (eapply (Hge idx); eauto).
+    set (n1 := with_int (nv nd) (v_int (nv nd) ++ [c])).
+    assert (HL1 : LV [] None X (wputn n1 w0)).
+    { eapply LV_int_g; [exact HL|exact Hn|]. intros nc' Hc' _. assert (nc' = nc) by congruence. subst nc'.
+      apply NodeOK_lift with (n := nv nd) (f := isvv w0) (g := iflag w0); try reflexivity; try exact Hinf; try exact HN.
+      - rewrite (Hns nc Hcz). discriminate.
+      - intros _ HF'. cbn. eapply FinOK_int_add; [exact HF'| |exact HcX0|exact Hcni]. unfold memv. apply in_or_app. left. apply (HX c HcX0). }
+    assert (Hn1 : wnode (wputn n1 w0) j = Some n1) by (eapply wnode_wputn; eauto).
+    split; [eapply LV_flag; [exact HL1|exact HcX0|exact Hyf]|].
+    exists n1. split; [rewrite wnode_wputi; exact Hn1|]. split; [exact Hinf|]. split; [exact Hids|]. split; [exact HcX|].
+    split; [|split].
+    - intros c' Hc'. destruct (HX c' Hc') as (H1 & (k' & H2) & H3). split; [exact H1|]. split; [|exact H3].
+      exists k'. rewrite isvv_wputi. destruct (c =? c') eqn:E; [|exact H2]. apply Z.eqb_eq in E. subst c'.
+      unfold isvv in H2. rewrite Hyf in H2. exact H2.
+    - intros m t c' Hm Ht Hct. cbn [n1 with_int v_int]. rewrite iflag_wputi.
+      destruct (Nat.eq_dec m idx) as [->|Hne].
+      + cbn [n1 with_int v_srv] in Ht. rewrite Ht0 in Ht. injection Ht as <-. assert (c' = c) by congruence. subst c'.
+        split; [apply in_or_app; right; left; reflexivity|rewrite Z.eqb_refl; reflexivity].
+      + destruct (Hlt m t c' ltac:(lia) Ht Hct) as [H1 H2]. split; [apply in_or_app; left; exact H1|]. destruct (c =? c'); [reflexivity|exact H2].
+    - intros m t c' Hm Ht Hct Hin. cbn [n1 with_int v_int v_srv] in *. apply in_app_or in Hin as [Hin|[E|[]]].
+      + eapply (Hge m); eauto. lia.
+      + subst c'. destruct (fo_cust _ _ _ _ _ _ _ _ HF t c (nth_error_In _ _ Ht) Hct) as [_ F1].
+        destruct (fo_cust _ _ _ _ _ _ _ _ HF t0 c (nth_error_In _ _ Ht0) Hc0) as [_ F2].
+        assert (m = idx); [|lia]. eapply (NoDup_map_nth s_id); [exact (fo_nd _ _ _ _ _ _ _ _ HF)|exact Ht|exact Ht0|congruence].
+  Qed.
+
+  Lemma nv_set_srv nd l : nv (nd <| n_servers := l |>) = with_srv (nv nd) (map sc l).
+  Proof. destruct nd; reflexivity. Qed.
+  Lemma sc_set_shift_end sv se : sc (sv <| sv_shift_end := se |>) = sc sv.
+  Proof. destruct sv; reflexivity. Qed.
+  Lemma with_srv_same n : with_srv n (v_srv n) = n.
+  Proof. destruct n; reflexivity. Qed.
+
+  Lemma Sh_skip j X ids idx w : Sh j X ids idx w ->
+    (forall n t, wnode w j = Some n -> nth_error (v_srv n) idx = Some t -> s_cust t = None) -> Sh j X ids (S idx) w.
+  Proof.
+    intros (n & Hn & Hinf & Hids & HcX & HX & Hlt & Hge) Hnone. exists n. repeat (split; [assumption|]). split.
+    - intros m t c Hm Ht Hc. destruct (Nat.eq_dec m idx) as [->|Hne]; [rewrite (Hnone n t Hn Ht) in Hc; discriminate|]. eapply Hlt; eauto. lia.
+    - intros m t c Hm. apply Hge. lia.
+  Qed.
+
+  Lemma ht_off_duty_loop f j pre se X ids :
+    (pre =? 4) = false -> (forall nc, nthZ (cf_nodes cf) (j - 1) = Some nc -> nc_slotted nc = false) ->
+    forall k idx, (S (length ids) <= k + idx)%nat ->
+    ht (fun w => LV [] None X w /\ Sh j X ids idx w) (off_duty_loop cf k f j idx pre se)
+       (fun _ w => LV [] None X w /\ exists idx', (length ids <= idx')%nat /\ Sh j X ids idx' w).
+  Proof.
+    intros Hp4 Hns. induction k as [|k IH]; intros idx Hk; cbn [off_duty_loop].
+    - eapply ht_post; [apply ht_ret|]. intros ? w ? [[HL HSh] _]. split; [exact HL|]. exists idx. split; [lia|exact HSh].
+    - hnode nd. destruct (nth_error (n_servers nd) idx) as [sv|] eqn:Esv.
+      + eapply ht_bind with (Q := fun _ w => (LV [] None X w /\ Sh j X ids idx w) /\ cur j nd w).
+        { eapply ht_post; [apply ht_put_node|]. intros _ w _ (w0 & HI0 & ((HL & HSh) & Hcur) & ->).
+          assert (E : wputn (nv (nd <| n_servers := put_server_l (sv <| sv_shift_end := se |>) (n_servers nd) |>)) w0 = w0); [|rewrite E; auto].
+          destruct Hcur as [Hid Hn]. destruct HSh as (n & Hn' & Hinf & _). rewrite Hn in Hn'. injection Hn' as <-.
+          destruct (LV_node _ _ _ _ _ _ HL Hn) as (kk & nc & Hjk & Hkk & Hc & Hcz & HN).
+          pose proof (NodeOK_fin nc None X (nv nd) _ _ (Hns nc Hcz) Hinf HN) as HF.
+          rewrite nv_set_srv, map_sc_put, sc_set_shift_end, putsv_same.
+          - change (map sc (n_servers nd)) with (v_srv (nv nd)). rewrite with_srv_same. apply wputn_same.
+            rewrite (wnode_id _ _ _ HI0 Hn). unfold wnode in Hn. destruct (j <? 1); [discriminate|exact Hn].
+          - apply fsv_In; [exact (fo_nd _ _ _ _ _ _ _ _ HF)|apply in_map; eapply nth_error_In; eauto|reflexivity]. }
+        intros ?. eapply ht_bind with (Q := fun _ w => LV [] None X w /\ Sh j X ids (S idx) w); [|intros ?; apply IH; lia].
+        destruct (sv_cust sv) as [c|] eqn:Ec.
+        * eapply ht_pre; [|apply ht_interrupt_service; assumption].
+          intros w _ ((HL & HSh) & [Hid Hn]). split; [exact HL|]. split; [exact HSh|].
+          exists (nv nd), (sc sv). split; [exact Hn|]. split; [cbn; rewrite nth_error_map, Esv; reflexivity|exact Ec].
+        * eapply ht_post; [apply ht_ret|]. intros ? w ? [((HL & HSh) & [Hid Hn]) _]. split; [exact HL|]. apply Sh_skip; [exact HSh|].
+          intros n t Hn' Ht. rewrite Hn in Hn'. injection Hn' as <-. cbn in Ht. rewrite nth_error_map, Esv in Ht. injection Ht as <-. exact Ec.
+      + eapply ht_post; [apply ht_ret|]. intros ? w ? [((HL & HSh) & [Hid Hn]) _]. split; [exact HL|]. exists idx. split; [|exact HSh].
+        destruct HSh as (n & Hn' & _ & Hids & _). rewrite Hn in Hn'. injection Hn' as <-. apply nth_error_None in Esv.
+        rewrite <- Hids. unfold sids. cbn. rewrite !map_length. exact Esv.
+  Qed.
+  End Core.
 End Link.
